@@ -29,6 +29,7 @@
 -/
 import Props.Lemmas.C14_Frame
 import Props.Lemmas.C14_Hidden
+import Props.Lemmas.C14_Import
 
 namespace Pypyr.C14
 open Pypyr.PyNs
@@ -1458,4 +1459,356 @@ theorem hoisted_save_dict_counterexample :
     (runSaveCall st2 0 [] [("count", .cst 7)]).2.ctx.get? "draft" = Option.none ∧
     (runSaveCall st2 0 [] [("count", .cst 7)]).2.ctx.get? "notes" = some (.cst 1) := by decide +kernel
 
+end Pypyr.C14
+
+/- A second block of the same namespace: `Pypyr.PyNs` is not open here (its `Stmt` / `Err` would be
+   ambiguous with the ones of the import source language). -/
+namespace Pypyr.C14
+open Pypyr.PyImportSrc
+
+/-! ## 10. The pyimport source language (`moduleloader.ImportVisitor`, PypyrModel/PyImportSrc.lean)
+
+"names imported through pyimport": which name an import statement binds to which object. The theorems
+are about `visitImport` / `visitFrom` / `visitSource` — the visitor as it is, threading its dict — for
+every world of modules, every statement, every item list (induction over the list). -/
+
+section ImportSource
+
+/-- example world: package `a` with sub-package `a.b`, module `a.b.c`, module `a.m`, plain module `c`;
+    `a.X`, `a.b.Y` plain attributes; `a.al` is module `c` under another name (`import c as al` in a/__init__) -/
+def exW : World :=
+  { mods := [["a"], ["a", "b"], ["a", "b", "c"], ["a", "m"], ["c"]],
+    attrs := [((["a"], "X"), .attr ["a"] "X"), ((["a", "b"], "Y"), .attr ["a", "b"] "Y"),
+              ((["a"], "al"), .mod ["c"])] }
+
+/-- `visit_import_is_fold_of_items`: what `visit_Import` leaves in the visitor's dict is the dict before
+    with the bindings of the items — each computed from that item ALONE (`bindItem`, no visitor state) —
+    assigned in order; it fails exactly when some item alone fails. An item's binding does not depend
+    on its neighbours in the statement. -/
+theorem visit_import_is_fold_of_items (w : World) (items : List ImportItem) (ns : Ns) :
+    visitImport w ns items = (itemBindings w items).map ns.setAll := by
+  induction items generalizing ns with
+  | nil => rfl
+  | cons it rest ih =>
+    simp only [visitImport, itemBindings]
+    cases hb : bindItem w it with
+    | error e => rfl
+    | ok b =>
+      simp only [ih]
+      cases hr : itemBindings w rest with
+      | error e => rfl
+      | ok bs => rfl
+
+example : visitImport exW [] [⟨["a", "b"], none⟩, ⟨["c"], none⟩, ⟨["a", "m"], some "x"⟩] =
+    .ok [("a", .mod ["a"]), ("c", .mod ["c"]), ("x", .mod ["a", "m"])] := by decide +kernel
+
+/-- `import_statement_splits`: `import i1, i2, …` and `import i1; import i2; …` (one statement per item)
+    leave the same dict (or fail alike), whatever follows in the source. -/
+theorem import_statement_splits (w : World) (items : List ImportItem) (rest : Source) (ns : Ns) :
+    visitSource w ns (.imp items :: rest) = visitSource w ns (items.map (fun i => .imp [i]) ++ rest) := by
+  induction items generalizing ns with
+  | nil => simp [visitSource, visitStmt, visitImport]
+  | cons it tl ih =>
+    have := ih
+    simp only [visitSource, visitStmt, List.map_cons, List.cons_append] at this ⊢
+    simp only [visitImport]
+    cases hb : bindItem w it with
+    | error e => rfl
+    | ok b => simp only []; rw [← this]
+
+example : visitSource exW [] [.imp [⟨["a", "b"], none⟩, ⟨["c"], none⟩]] =
+    visitSource exW [] [.imp [⟨["a", "b"], none⟩], .imp [⟨["c"], none⟩]] ∧
+    visitSource exW [] [.imp [⟨["a", "b"], none⟩, ⟨["c"], none⟩]] = .ok [("a", .mod ["a"]), ("c", .mod ["c"])] := by
+  decide +kernel
+
+/-- `from_statement_splits`: `from m import n1, n2, …` = one `from m import n` statement per name. -/
+theorem from_statement_splits (w : World) (m : Path) (names : List FromName) (rest : Source) (ns : Ns)
+    (hne : names ≠ []) :
+    visitSource w ns (.from_ 0 m names :: rest) =
+      visitSource w ns (names.map (fun f => .from_ 0 m [f]) ++ rest) := by
+  cases hm : importModule w m with
+  | error e =>
+    cases names with
+    | nil => exact absurd rfl hne
+    | cons f tl => simp [visitSource, visitStmt, visitFrom, hm]
+  | ok o =>
+    clear hne
+    induction names generalizing ns with
+    | nil => simp [visitSource, visitStmt, visitFrom, hm, visitFromLoop]
+    | cons f tl ih =>
+      have := ih
+      simp only [visitSource, visitStmt, visitFrom, hm, List.map_cons, List.cons_append,
+        Nat.lt_irrefl, if_false, gt_iff_lt] at this ⊢
+      simp only [visitFromLoop]
+      cases hb : bindFrom w m f with
+      | error e => rfl
+      | ok b => simp only []; rw [← this]
+
+/-- `dotted_import_binds_top_package`: `import a.b…` (no asname) binds exactly the name `a`, to the
+    top-level package object — provided the whole dotted name is importable; otherwise it fails. -/
+theorem dotted_import_binds_top_package (w : World) (a b : String) (r : Path) :
+    bindItem w ⟨a :: b :: r, none⟩ =
+      (importModule w (a :: b :: r)).map (fun _ => (a, Obj.mod [a])) := by
+  simp only [bindItem]
+  cases importModule w (a :: b :: r) <;> rfl
+
+/-- `aliased_import_binds_the_module`: `import p as x` binds exactly `x`, to the module `p` itself
+    (the sub-module for a dotted `p`, not its top-level package). -/
+theorem aliased_import_binds_the_module (w : World) (p : Path) (x n : String) (o : Obj)
+    (h : bindItem w ⟨p, some x⟩ = .ok (n, o)) : n = x ∧ o = .mod p := by
+  simp only [bindItem, importModule] at h
+  split at h
+  · cases h
+  · rename_i m hm
+    split at hm
+    · cases hm; cases h; exact ⟨rfl, rfl⟩
+    · cases hm
+
+/-- `plain_import_binds_the_module`: `import a` binds `a` to module `a`. -/
+theorem plain_import_binds_the_module (w : World) (a n : String) (o : Obj)
+    (h : bindItem w ⟨[a], none⟩ = .ok (n, o)) : n = a ∧ o = .mod [a] := by
+  simp only [bindItem, importModule] at h
+  split at h
+  · cases h
+  · rename_i m hm
+    split at hm
+    · cases hm; cases h; exact ⟨rfl, rfl⟩
+    · cases hm
+
+example : bindItem exW ⟨["a", "b", "c"], none⟩ = .ok ("a", .mod ["a"]) ∧
+    bindItem exW ⟨["a", "b", "c"], some "x"⟩ = .ok ("x", .mod ["a", "b", "c"]) ∧
+    bindItem exW ⟨["c"], none⟩ = .ok ("c", .mod ["c"]) ∧
+    bindItem exW ⟨["a", "zz"], none⟩ = .error .modNotFound := by decide +kernel
+
+/-- the name of a binding an item makes is the item's `boundName` -/
+theorem bindItem_name (w : World) (it : ImportItem) (b : String × Obj) (h : bindItem w it = .ok b) :
+    b.1 = it.boundName := by
+  obtain ⟨p, asn⟩ := it
+  cases asn with
+  | some x =>
+    simp only [bindItem] at h
+    split at h
+    · cases h
+    · cases h; rfl
+  | none =>
+    match p with
+    | [] => simp [bindItem] at h
+    | [a] =>
+      simp only [bindItem] at h
+      split at h
+      · cases h
+      · cases h; rfl
+    | a :: b' :: r =>
+      simp only [bindItem] at h
+      split at h
+      · cases h
+      · cases h; rfl
+
+theorem itemBindings_names (w : World) (items : List ImportItem) (bs : List (String × Obj))
+    (h : itemBindings w items = .ok bs) : bs.map (·.1) = items.map ImportItem.boundName := by
+  induction items generalizing bs with
+  | nil => simp only [itemBindings] at h; cases h; rfl
+  | cons it rest ih =>
+    simp only [itemBindings] at h
+    cases hb : bindItem w it with
+    | error e => simp [hb] at h
+    | ok b =>
+      cases hr : itemBindings w rest with
+      | error e => simp [hb, hr] at h
+      | ok cs =>
+        simp only [hb, hr] at h
+        cases h
+        simp [ih cs hr, bindItem_name w it b hb]
+
+/-- `import_binds_exactly_its_item_names`: after a successful `import` statement a name is in the dict
+    iff it was there before or is the bound name of one of the items (asname, else first component). -/
+theorem import_binds_exactly_its_item_names (w : World) (items : List ImportItem) (ns ns' : Ns)
+    (h : visitImport w ns items = .ok ns') (n : String) :
+    (ns'.get n).isSome ↔ ((ns.get n).isSome ∨ n ∈ items.map ImportItem.boundName) := by
+  rw [visit_import_is_fold_of_items] at h
+  cases hb : itemBindings w items with
+  | error e => simp [hb, Except.map] at h
+  | ok bs =>
+    simp only [hb, Except.map] at h
+    cases h
+    rw [Ns.get_setAll, ← itemBindings_names w items bs hb, ← lastBinding_isSome]
+    cases lastBinding bs n <;> simp
+
+/-- `import_lookup_is_last_item_binding`: reading name `n` after the statement gives the binding of the
+    LAST item that binds `n`; a name no item binds reads as before. -/
+theorem import_lookup_is_last_item_binding (w : World) (items : List ImportItem) (ns ns' : Ns)
+    (bs : List (String × Obj)) (hb : itemBindings w items = .ok bs)
+    (h : visitImport w ns items = .ok ns') (n : String) :
+    ns'.get n = match lastBinding bs n with
+      | some o => some o
+      | none => ns.get n := by
+  rw [visit_import_is_fold_of_items, hb] at h
+  simp only [Except.map] at h
+  cases h
+  exact Ns.get_setAll bs ns n
+
+/-- `visit_source_is_fold_of_bindings`: the whole source: the dict is the binding trace of the source
+    (statement by statement, item by item, each taken alone) assigned in order. -/
+theorem visit_from_is_fold (w : World) (m : Path) (names : List FromName) (ns : Ns) :
+    visitFromLoop w m ns names = (fromBindings w m names).map ns.setAll := by
+  induction names generalizing ns with
+  | nil => rfl
+  | cons f rest ih =>
+    simp only [visitFromLoop, fromBindings]
+    cases hb : bindFrom w m f with
+    | error e => rfl
+    | ok b =>
+      simp only [ih]
+      cases hr : fromBindings w m rest <;> rfl
+
+theorem visit_stmt_is_fold (w : World) (s : Stmt) (ns : Ns) :
+    visitStmt w ns s = (stmtBindings w s).map ns.setAll := by
+  cases s with
+  | imp items => exact visit_import_is_fold_of_items w items ns
+  | from_ l m names =>
+    simp only [visitStmt, visitFrom, stmtBindings]
+    split
+    · rfl
+    · cases importModule w m with
+      | error e => rfl
+      | ok o => exact visit_from_is_fold w m names ns
+  | other => rfl
+
+theorem visit_source_is_fold_of_bindings (w : World) (src : Source) (ns : Ns) :
+    visitSource w ns src = (sourceBindings w src).map ns.setAll := by
+  induction src generalizing ns with
+  | nil => rfl
+  | cons s rest ih =>
+    simp only [visitSource, sourceBindings, visit_stmt_is_fold]
+    cases hs : stmtBindings w s with
+    | error e => rfl
+    | ok bs =>
+      simp only [Except.map, ih]
+      cases hr : sourceBindings w rest with
+      | error e => rfl
+      | ok cs => simp [Ns.setAll_append]
+
+/-- `source_lookup_is_last_binding`: after `get_namespace(source)` a name reads as the LAST binding of
+    it anywhere in the source (a later statement / item overrides an earlier one), and is absent iff
+    nothing binds it. -/
+theorem source_lookup_is_last_binding (w : World) (src : Source) (ns : Ns) (bs : List (String × Obj))
+    (hb : sourceBindings w src = .ok bs) (h : getNamespace w src = .ok ns) (n : String) :
+    ns.get n = lastBinding bs n := by
+  rw [getNamespace, visit_source_is_fold_of_bindings, hb] at h
+  simp only [Except.map] at h
+  cases h
+  rw [Ns.get_setAll]
+  cases lastBinding bs n <;> simp [Ns.get]
+
+example : getNamespace exW [.imp [⟨["a", "m"], some "x"⟩, ⟨["c"], none⟩], .other,
+      .from_ 0 ["a"] [⟨"X", none⟩, ⟨"b", some "x"⟩, ⟨"al", some "c2"⟩], .imp [⟨["a", "b", "c"], none⟩]] =
+    .ok [("x", .mod ["a", "b"]), ("c", .mod ["c"]), ("X", .attr ["a"] "X"), ("c2", .mod ["c"]),
+         ("a", .mod ["a"])] := by decide +kernel
+
+/-- `later_step_overrides_earlier`: several pyimport steps on one Context: a name reads as the last
+    binding the latest successful step gave it, else as before that step; a failing step changes nothing. -/
+theorem later_step_overrides_earlier (w : World) (g : Ns) (src : Source) (n : String) :
+    (runStep w g src).1.get n =
+      match sourceBindings w src with
+      | .error _ => g.get n
+      | .ok bs => match lastBinding bs n with
+        | some o => some o
+        | none => g.get n := by
+  simp only [runStep, getNamespace, visit_source_is_fold_of_bindings]
+  cases hb : sourceBindings w src with
+  | error e => rfl
+  | ok bs =>
+    have hwf : (Ns.setAll [] bs).WF := Ns.setAll_wf bs [] (by simp [Ns.WF])
+    simp only [Except.map]
+    rw [Ns.get_setAll, Ns.lastBinding_of_wf _ _ hwf, Ns.get_setAll]
+    cases hl : lastBinding bs n with
+    | some o => rfl
+    | none => simp [Ns.get]
+
+example : runSession exW [] [[.imp [⟨["a", "b"], some "x"⟩]], [.imp [⟨["nope"], none⟩, ⟨["c"], none⟩]],
+      [.from_ 0 ["a"] [⟨"X", some "x"⟩], .imp [⟨["c"], none⟩]]] =
+    [("x", .attr ["a"] "X"), ("c", .mod ["c"])] := by decide +kernel
+
+/-- `from_import_binds_attribute_else_submodule`: `from m import n [as x]` binds x (else n) to the
+    attribute `n` of module m when it has one, else to sub-module `m.n`. -/
+theorem from_import_binds_attribute_else_submodule (w : World) (m : Path) (f : FromName) :
+    bindFrom w m f = match getAttr w m f.name with
+      | some o => .ok (f.boundName, o)
+      | none => (importModule w (m ++ [f.name])).map (fun o => (f.boundName, o)) := by
+  simp only [bindFrom]
+  cases getAttr w m f.name with
+  | some o => rfl
+  | none => cases importModule w (m ++ [f.name]) <;> rfl
+
+/-- `relative_import_rejected`: any `from .… import …` is a TypeError, nothing is bound. -/
+theorem relative_import_rejected (w : World) (ns : Ns) (l : Nat) (m : Path) (names : List FromName)
+    (rest : Source) : visitSource w ns (.from_ (l + 1) m names :: rest) = .error .typeError := by
+  simp [visitSource, visitStmt, visitFrom]
+
+/-- `star_import_rejected`: in a world where nothing is called `*` (no attribute, no module),
+    `from m import *` ends in ModuleNotFoundError (or the error of importing m), never binds. -/
+theorem star_import_rejected (w : World) (ns : Ns) (m : Path) (rest : Source)
+    (hattr : ∀ e ∈ w.attrs, e.1.2 ≠ "*") (hmod : ∀ p ∈ w.mods, "*" ∉ p) :
+    visitSource w ns (.from_ 0 m [⟨"*", none⟩] :: rest) = .error .modNotFound := by
+  have hga : getAttr w m "*" = none := by
+    simp only [getAttr, Option.map_eq_none_iff, List.find?_eq_none]
+    intro e he
+    have := hattr e he
+    intro heq
+    simp at heq
+    exact this (by rw [heq])
+  have him : importModule w (m ++ ["*"]) = .error .modNotFound := by
+    simp only [importModule]
+    split
+    · rename_i h
+      have hall := h.2
+      have hmem : (m ++ ["*"]) ∈ prefixes (m ++ ["*"]) := by
+        have : ∀ (q : Path), q ≠ [] → q ∈ prefixes q := by
+          intro q
+          induction q with
+          | nil => intro h; exact absurd rfl h
+          | cons a r ih =>
+            intro _
+            cases r with
+            | nil => simp [prefixes]
+            | cons b r' =>
+              simp only [prefixes, List.mem_cons, List.mem_map]
+              right
+              exact ⟨b :: r', by simpa [prefixes] using ih (by simp), rfl⟩
+        exact this _ (by simp)
+      have := List.all_eq_true.mp hall _ hmem
+      simp only [List.contains_iff_mem] at this
+      exact absurd (by simp) (hmod _ this)
+    · rfl
+  simp only [visitSource, visitStmt, visitFrom, Nat.lt_irrefl, gt_iff_lt, if_false]
+  cases hm : importModule w m with
+  | error e =>
+    -- importing m itself fails: the error is ModuleNotFoundError as well
+    cases importModule_error w m e hm
+    rfl
+  | ok o => simp [visitFromLoop, bindFrom, hga, him]
+
+/-- `sticky_bind_to_differs`: the COUNTER-MODEL with a statement-level `bind_to` (set by a dotted
+    un-aliased item, never reset) is a different function: on `import a.b, c` it never binds `c` and
+    leaves `a` bound to module c; the visitor as it is binds `a` to package a and `c` to module c. With the
+    dotted item last, or aliased, the two agree — the difference needs exactly the mix of the theorem. -/
+theorem sticky_bind_to_differs :
+    let items : List ImportItem := [⟨["a", "b"], none⟩, ⟨["c"], none⟩]
+    visitImport exW [] items = .ok [("a", .mod ["a"]), ("c", .mod ["c"])] ∧
+    visitImportSticky exW none [] items = .ok [("a", .mod ["c"])] ∧
+    visitImportSticky exW none [] items ≠ visitImport exW [] items ∧
+    visitImportSticky exW none [] [⟨["c"], none⟩, ⟨["a", "b"], none⟩] =
+      visitImport exW [] [⟨["c"], none⟩, ⟨["a", "b"], none⟩] ∧
+    visitImportSticky exW none [] [⟨["a", "b"], some "x"⟩, ⟨["c"], none⟩] =
+      visitImport exW [] [⟨["a", "b"], some "x"⟩, ⟨["c"], none⟩] := by decide +kernel
+
+/-- the general form: whenever `a.b…` and `c` are importable and `c ≠ a`, the sticky visitor leaves `c`
+    unbound after `import a.b…, c` from an empty dict, the real one binds it to module c. -/
+theorem sticky_bind_to_loses_later_name (w : World) (a b c : String) (r : Path) (hca : a ≠ c)
+    (h1 : importModule w (a :: b :: r) = .ok (.mod (a :: b :: r))) (h2 : importModule w [c] = .ok (.mod [c])) :
+    (visitImportSticky w none [] [⟨a :: b :: r, none⟩, ⟨[c], none⟩]).map (·.get c) = .ok none ∧
+    (visitImport w [] [⟨a :: b :: r, none⟩, ⟨[c], none⟩]).map (·.get c) = .ok (some (.mod [c])) := by
+  simp [visitImportSticky, visitImport, bindItem, h1, h2, Except.map, Ns.set, Ns.get, hca]
+
+end ImportSource
 end Pypyr.C14
